@@ -118,7 +118,9 @@ class WebSocketDataQueue:
         self._exception = None  # Break cyclic references
 
     def feed_data(self, data: "WSMessage") -> None:
-        size = data.size
+        # An empty message still occupies the buffer: count it as one byte so
+        # that a flood of empty messages is subject to flow control as well.
+        size = data.size or 1
         self._size += size
         self._put_buffer(data)
         self._release_waiter()
@@ -143,7 +145,7 @@ class WebSocketDataQueue:
     def _read_from_buffer(self) -> WSMessage:
         if self._buffer:
             data = self._get_buffer()
-            size = data.size
+            size = data.size or 1
             self._size -= size
             if self._size < self._limit and self._protocol._reading_paused:
                 self._protocol.resume_reading()
